@@ -54,7 +54,9 @@ REAL = {
     "LLImplPalette": ("ak.hdoc:LLImpl.LLImplPalette", {"text": "TEXT", "name": "LL.NAME", "category": "LL.CATEGORY"}),
 }
 COMPOUND = ("TablePalette",)
-ODD_IDS = ["red", "Cyan", "Blue.x", "G5", "g24", "g05", "white", "Magenta", "usr.a", "TEXT.sub"]
+ODD_IDS = ["red", "Cyan", "Blue.x", "G5", "g24", "g05", "white", "Magenta", "usr.a", "TEXT.sub",
+           # ids spelled like accessors / attributes of the palettes (an id is an id)
+           "warn", "error", "ok", "keyword", "name", "text", "get_color", "colors_conf"]
 GLOBAL_ACCESSORS = {"text": "TEXT", "name": "NAME", "keyword": "KEYWORD", "ok": "OK", "warn": "WARN", "error": "ERROR"}
 
 
@@ -428,7 +430,7 @@ class World:
             self.compare(self.decode(conf.get_color(sid), "get_color", sid), want, "get_color", sid)
         # palettes obtained from the configuration reflect its current state
         gp = conf.get_palette()
-        for sid in ids[:: max(1, len(ids) // 6)]:
+        for sid in ids[:: max(1, len(ids) // 6)] + [x for x in ids if x in ODD_IDS]:
             if sid in self.quarantine or self.touches_quarantine(reg, sid):
                 continue
             self.compare(self.decode(gp[sid], "get_palette()[id]", sid), reg.style(sid, nc), "get_palette", sid)
